@@ -1074,6 +1074,16 @@ def m_opt_or_else(dex, fn, body, st, c, args, depth):
             yield from dex.call_closure(s2, args[1], [], depth)
 
 
+def m_opt_or(dex, fn, body, st, c, args, depth):
+    for n, s2, payload in variant_fork(dex, st, args[0], *OPT):
+        yield s2, (some(payload) if n == "Some" else args[1]), False
+
+
+def m_opt_and(dex, fn, body, st, c, args, depth):
+    for n, s2, payload in variant_fork(dex, st, args[0], *OPT):
+        yield s2, (args[1] if n == "Some" else args[0]), False
+
+
 def m_opt_unwrap(dex, fn, body, st, c, args, depth):
     for n, s2, payload in variant_fork(dex, st, args[0], *OPT):
         if n == "Some":
@@ -1242,6 +1252,8 @@ SUFFIX_MODELS = [
     ("option::Option::<T>::ok_or", m_opt_ok_or),
     ("option::Option::<T>::ok_or_else", m_opt_ok_or_else),
     ("option::Option::<T>::or_else", m_opt_or_else),
+    ("option::Option::<T>::or", m_opt_or),
+    ("option::Option::<T>::and", m_opt_and),
     ("option::Option::<T>::unwrap", m_opt_unwrap),
     ("option::Option::<T>::expect", m_opt_unwrap),
     ("option::Option::<T>::filter", m_opt_filter),
